@@ -658,6 +658,12 @@ func (c *CEDARTLSConnection) receiveMessage(ctx context.Context) ([]byte, error)
 	}
 
 	// HTCondor protocol: receive data bytes third (if length > 0)
+	// The length comes from the peer: a TLS record carried in a CEDAR message is
+	// at most one frame, so anything negative or larger is a protocol error and
+	// must not size a buffer.
+	if length < 0 || length > message.MaxFrameSize {
+		return nil, fmt.Errorf("invalid TLS data length %d", length)
+	}
 	data := make([]byte, length)
 	for i := 0; i < length; i++ {
 		b, err := msg.GetChar(ctx)
